@@ -107,7 +107,9 @@ func genC09(t *rapid.T) *C09Case {
 			genC09Match(t, r)
 			if rapid.IntRange(0, 4).Draw(t, "multi") == 0 && len(r.Targets) > 0 && !r.Targets[0].Count {
 				r.Multi = true
-				r.Trans = rapid.SliceOfN(rapid.SampledFrom([]string{"lowercase", "trim", "removeNulls"}), 1, 2).Draw(t, "trans")
+				// including transformations that may hand back what they were given (the length of "1", a "%" that
+				// starts no escape, the encoding of nothing): an unchanged value is not another matched value
+				r.Trans = rapid.SliceOfN(rapid.SampledFrom([]string{"lowercase", "trim", "removeNulls", "length", "urlDecode", "hexEncode"}), 1, 2).Draw(t, "trans")
 			}
 			genC09Actions(t, r, !r.Multi, c.AccInc, r.ID)
 			if rapid.IntRange(0, 7).Draw(t, "plainskip") == 0 {
@@ -222,12 +224,12 @@ func checkC09(c *C09Case) Result {
 	gf := append([]Fired(nil), got.Fired...)
 	wf := append([]Fired(nil), want.Fired...)
 	for i := range gf {
-		if r := rules[gf[i].ID]; r != nil && (r.Multi || chainHasMulti(r)) {
+		if r := rules[gf[i].ID]; false && r != nil {
 			gf[i].Data = dedupTriples(gf[i].Data)
 		}
 	}
 	for i := range wf {
-		if r := rules[wf[i].ID]; r != nil && (r.Multi || chainHasMulti(r)) {
+		if r := rules[wf[i].ID]; false && r != nil {
 			wf[i].Data = dedupTriples(wf[i].Data)
 		}
 	}
@@ -245,7 +247,7 @@ func checkC09(c *C09Case) Result {
 		}
 		return false
 	}
-	asSet := func(id int) bool { r := rules[id]; return r != nil && (r.Multi || chainHasMulti(r)) }
+	asSet := func(id int) bool { return false } // multiMatch rules too: an unchanged value is not evaluated twice
 	if d := diffFiredSets(gf, wf, isCount, asSet); d != "" {
 		res.Fail = failf("%s%s", d, ctx)
 		return res
